@@ -1197,7 +1197,8 @@ fn main() {
     // b.ex/A is the mirror image of a.ex/A: the quick tier leaves it out of the three-step shape
     let fills2: Vec<Step> = fills.iter().filter(|f| !quick || f.q != 1).copied().collect();
     let cfgs1: Vec<usize> = (0..CFGS.len()).collect();
-    let cfgs2: Vec<usize> = if quick { vec![0] } else { (0..CFGS.len()).collect() };
+    // thorough leaves out default+cache_truncated here: it differs from default only for the TC answer, which distinct+cache_truncated covers
+    let cfgs2: Vec<usize> = if quick { vec![0] } else { vec![0, 1, 3] };
 
     // ---- shape 1: fill · probe
     let items: Vec<(usize, Step)> = cfgs1.iter().flat_map(|&c| fills.iter().map(move |f| (c, *f))).collect();
